@@ -302,6 +302,9 @@ type Op struct {
 	Cols   []BStr   `json:"cols,omitempty"`
 	Bytes  BStr     `json:"bytes,omitempty"`
 	Cell   *Cell    `json:"cell,omitempty"`
+	// Reuse: aggregate on the GroupedDataFrame object of the previous groupby/groupagg step of this history
+	// (same frame, same key) instead of calling Groupby again; not visible to the model, which is stateless
+	Reuse bool `json:"reuse,omitempty"`
 }
 
 type GroupObs struct {
